@@ -113,7 +113,10 @@ def inject(rng, t, toks):
             return None
         s, e = rng.choice(nums)
         p = s + 1 if t[s:s + 1] == b"-" else s
-        return kind, t[:p] + b"0" + t[p:], False
+        zeros = b"0" * rng.choice([1, 1, 1, 2, 3, 17, 18, 19, 20, 21, 25, 40])
+        # leading zeros do not change the value of an integer token (a double keeps its source text, which differs)
+        is_int = not any(c in t[s:e] for c in b".eE")
+        return kind, t[:p] + zeros + t[p:], is_int
     if kind == "exp":
         nums = [(s, e) for k, s, e in toks if k == "num" and b"e" not in t[s:e] and b"E" not in t[s:e]]
         if not nums:
